@@ -1,3 +1,100 @@
-import Tickit.Model.XTermDrv
+import Tickit.Proof.XTermDrv
+/-
+  C09 — xterm driver output has exactly the requested effect on a VT-conformant screen.
+
+  `VT.run bytes vt` is the VT reference interpreter (Model/VT.lean, DESIGN.md Appendix C) applied to a byte string;
+  `XTermDrv.*` is the byte-exact model of the driver's requests (Model/XTermDrv.lean).  Every theorem is quantified
+  over all screens `vt` satisfying `Spec.WF` (tokenizer in the ground state, cursor on the screen, no margins set),
+  hence over every terminal size and content, over all in-range arguments, over the capability bits and over the
+  reverse-video state.
+-/
 namespace Tickit.Props.C09
+open Tickit Tickit.VT Tickit.XTermDrv
+
+/-! ### `%d` round trip -/
+
+/-- What the driver prints with `%d` is read back as the same number. -/
+theorem readInt_showInt (i : Int) : readInt (showInt i) = some i := by
+  unfold showInt
+  by_cases h : i < 0
+  · simp only [h, if_true, readInt, readNat_showNat]
+    congr 1; simp only [Int.ofNat_eq_natCast]; omega
+  · simp only [h, if_false]
+    cases hs : showNat i.toNat with
+    | nil => exact absurd hs (showNat_ne_nil _)
+    | cons b rest =>
+      have hb := showNat_head_ne_minus i.toNat b rest hs
+      simp only [readInt, hb, if_false]
+      rw [← hs, readNat_showNat]
+      simp only [Int.ofNat_eq_natCast, Int.toNat_of_nonneg (Int.not_lt.mp h)]
+
+example : readInt (showInt (-1048576)) = some (-1048576) := readInt_showInt _
+
+/-! ### Cursor positioning and relative movement -/
+
+/-- `goto`: the cursor is exactly where requested (`-1` keeps a coordinate), the screen is untouched. -/
+theorem goto_effect (vt : VTState) (hw : Spec.WF vt) (line col : Int)
+    (hl : line = -1 ∨ (0 ≤ line ∧ line < vt.lines)) (hc : col = -1 ∨ (0 ≤ col ∧ col < vt.cols)) :
+    run (gotoAbs line col) vt = Spec.goto line col vt := by
+  have hg := hw.ground
+  have hrow : 0 ≤ vt.row ∧ vt.row < vt.lines := ⟨hw.row_lo, hw.row_hi⟩
+  have hcol : 0 ≤ vt.col ∧ vt.col < vt.cols := ⟨hw.col_lo, hw.col_hi⟩
+  by_cases h1 : line = -1
+  · subst h1
+    by_cases h2 : col = -1
+    · subst h2; simp [gotoAbs, Spec.goto]
+    · have hc' : 0 ≤ col ∧ col < vt.cols := by omega
+      unfold gotoAbs Spec.goto
+      by_cases h3 : col > 0
+      · simp only [h2, h3, ne_eq, not_true_eq_false, false_and, and_false, if_true, if_false]
+        rw [run_csi_n vt hg (col + 1) (by omega) 0x47 fin_G, dispatch_cha, cnt_toNat0 _ (by omega),
+          moveTo_in vt _ _ hrow (by omega)]
+        congr 1; omega
+      · have h4 : col = 0 := by omega
+        subst h4
+        simp only [ne_eq, not_true_eq_false, false_and, and_false, if_false, gt_iff_lt, Int.lt_irrefl,
+          not_false_eq_true, if_true, (by decide : ¬ ((0 : Int) = -1))]
+        rw [run_csi_0 vt hg 0x47 fin_G, dispatch_cha, cnt_none0, moveTo_in vt _ _ hrow (by omega)]
+        rfl
+  · have hl' : 0 ≤ line ∧ line < vt.lines := by omega
+    by_cases h2 : col = -1
+    · subst h2
+      unfold gotoAbs Spec.goto
+      simp only [h1, ne_eq, not_false_eq_true, true_and, false_and, if_false, if_true, gt_iff_lt,
+        (by decide : ¬ ((0 : Int) < -1)), (by decide : ¬ ((-1 : Int) = 0))]
+      rw [run_csi_n vt hg (line + 1) (by omega) 0x64 fin_d, dispatch_vpa, cnt_toNat0 _ (by omega),
+        moveTo_in vt _ _ (by omega) hcol]
+      congr 1; omega
+    · have hc' : 0 ≤ col ∧ col < vt.cols := by omega
+      rw [run_gotoAbs_pos vt hg line col hl'.1 hc'.1, moveTo_in vt _ _ hl' hc']
+      simp [Spec.goto, h1, h2]
+
+example : Spec.WF (VTState.init 24 80 (fun _ _ => default)) := by
+  constructor <;> simp [VTState.init]
+
+/-- `move`: the cursor moves by exactly the requested offsets, the screen is untouched. -/
+theorem move_effect (vt : VTState) (hw : Spec.WF vt) (downward rightward : Int)
+    (hr : 0 ≤ vt.row + downward ∧ vt.row + downward < vt.lines)
+    (hc : 0 ≤ vt.col + rightward ∧ vt.col + rightward < vt.cols) :
+    run (moveRel downward rightward) vt = Spec.move downward rightward vt := by
+  have hg := hw.ground
+  unfold moveRel Spec.move
+  rw [run_append, run_signedSeq_vmove vt hg]
+  by_cases hd : downward = 0
+  · subst hd
+    simp only [if_true, true_and]
+    rw [run_signedSeq_hmove vt hg]
+    by_cases hr0 : rightward = 0
+    · simp [hr0]
+    · simp only [hr0, if_false]
+      rw [moveTo_in vt _ _ ⟨hw.row_lo, hw.row_hi⟩ hc]
+      simp
+  · simp only [hd, if_false, false_and]
+    rw [moveTo_in vt _ _ hr ⟨hw.col_lo, hw.col_hi⟩, run_signedSeq_hmove]
+    · by_cases hr0 : rightward = 0
+      · simp [hr0]
+      · simp only [hr0, if_false]
+        rw [moveTo_in _ _ _ (by simpa using hr) (by simpa using hc)]
+    · exact hg
+
 end Tickit.Props.C09
